@@ -3,7 +3,7 @@
    Err e   : the Go function returned a non-nil error of class e
    Panic   : the Go code would index/slice out of range, deref nil, or reflect-panic
    OutOfFuel : the fuelled loop did not finish -- only ever produced by fuel exhaustion *)
-From Coq Require Import String NArith List.
+From Coq Require Import String NArith List Bool.
 Import ListNotations.
 
 Inductive err := EShort | EVersion | ETooMany | ETmplNotFound | ENeg | EOther.
@@ -31,4 +31,24 @@ Definition err_tok (e : err) : tok :=
   match e with
   | ETmplNotFound => TS "tnf"
   | _ => TS "err"
+  end.
+
+(* decidable equality of observations (used by Examples evaluated with vm_compute) *)
+Definition tok_eqb (a b : tok) : bool :=
+  match a, b with
+  | TN x, TN y => N.eqb x y
+  | TS x, TS y => String.eqb x y
+  | TB x, TB y => (fix eq (l1 l2 : list N) : bool :=
+                     match l1, l2 with
+                     | [], [] => true
+                     | p :: r1, q :: r2 => N.eqb p q && eq r1 r2
+                     | _, _ => false
+                     end) x y
+  | _, _ => false
+  end.
+Fixpoint toks_eqb (a b : list tok) : bool :=
+  match a, b with
+  | [], [] => true
+  | x :: r1, y :: r2 => tok_eqb x y && toks_eqb r1 r2
+  | _, _ => false
   end.
